@@ -190,7 +190,7 @@ def scen_async_nodes(cfg):
             "every fired tick executes the step function exactly once, with that tick's sequence number": all(o["fired"] for o in obs) and seqs == list(range(K)),
             "the state handed to tick k is the state returned by tick k-1 (no hidden extra execution)": states == exp_states,
             "after the step the node's sequence number is tick + 1": int(node._step_state.seq) == K,
-            "the output sent to consumers is the output of that single execution": [a[0] for t_, n_, a in rec.tasks if n_ == "push_input"] == [("output", "n", k, k) for k in range(K)],
+            "the output sent to consumers is the output of that single execution": [a[0] for t_, n_, a in rec.tasks if n_ == "push_input"] == [("output", "n", k) for k in range(K)],
             "twin:ticks fired": len(calls) >= 1,
         }
 
